@@ -408,6 +408,7 @@ LABELS = {
     "preamble": list(STYLES),
     "finalize": list(STYLES) + ["idle"],
     "full": list(STYLES),
+    "geometry": [""],
 }
 
 
@@ -421,6 +422,16 @@ def generate(prop, which, label):
         return run_contract(prop, ("compute", f"{CLS}._compute_preamble"), contract_preamble(label), [(label, setup_preamble(label))], name="si_preamble")
     if which == "finalize":
         return run_contract(prop, ("compute", f"{CLS}.finalize"), contract_finalize(label), [(label, setup_finalize(label))], name="si_finalize")
+    if which == "geometry":
+        from pyvc import extract
+        from pyvc.check import UnitResult
+        try:
+            fx = extract.get_slice("compute", f"{CLS}.__init__", sel_geometry, "geometry: _frame_length, _dft_size (incl. power-of-two padding), _x_buf, y_blocks, _y_buf")
+        except KeyError as e:
+            u = UnitResult("si_geometry")
+            u.outside.append((f"compute:{CLS}.__init__", str(e)))
+            return u
+        return run_contract(prop, fx, contract_geometry(), [("", setup_geometry)], name="si_geometry", fname="SI.__init__#geometry")
     if which == "full":
         return run_contract(prop, ("compute", f"{CLS}.compute_full"), contract_full(label), [(label, setup_full(label))], name="si_full")
     raise KeyError(which)
@@ -640,3 +651,64 @@ def to_case_c04(ob):
                     # a mid-utterance compute_full on an empty / very short signal must be refused like any other
                     cases.append(dict(b, ops=[["chunk", T, 1, "f8"], ["full", short, 5, "f8"], ["chunk", 2 * s, 3, "f8"], ["finalize"]]))
     return cases[:3000]
+
+
+# ------------------------------------------------------------------------------------------
+# __init__, the statements that fix the geometry (a statement slice; everything else of the constructor - bank and window
+# construction, filter preparation - is dropped here): establishes the class invariant every unit above assumes
+# ------------------------------------------------------------------------------------------
+
+
+def sel_geometry(fn):
+    out = []
+    for s in fn.body:
+        txt = ast.unparse(s)
+        if isinstance(s, ast.Assign) and any(txt.startswith(p) for p in ("self._frame_length =", "self._dft_size =", "self._x_buf =", "y_blocks =", "self._y_buf =")):
+            out.append(s)
+        elif isinstance(s, ast.If) and "pad_to_nearest_power_of_two" in ast.unparse(s.test):
+            out.append(s)
+    return out
+
+
+def setup_geometry(ex, st):
+    s, M = api.sym("s"), api.sym("M")
+    rate, msh = api.sym("rate", "real"), api.sym("min_support_hz", "real")
+    nf = api.sym("nfilts")
+    st.assume(z3.And(s >= 1, M >= 1, rate > 0, msh > 0, nf >= 0))
+    ex.ctx = dict(s=s, M=M)
+    ex.positive = {str(s)}
+    api.mk_obj(st, "self", CLS, {"_frame_shift": s, "_max_support": M, "_rate": rate, "_filts": symex.SeqVal(nf, lambda i: Opaque(("filt", i), "spectrum"))})
+    st.env["min_support_hz"] = msh
+    st.env["pad_to_nearest_power_of_two"] = api.sym("pad", "bool")
+    for ax in api.math_axioms():
+        ex.axioms.append(ax)
+
+
+def _h_empty_geometry(ex, st, args, kwargs, node, ev):
+    shape = args[0]
+    if isinstance(shape, (tuple, list)) and len(shape) == 3:
+        ev.wd(z3.And(*[Z(x) >= 0 for x in shape]), "shape_nonneg", node)
+        st.ghost["NB"], st.ghost["halves"] = shape[0], shape[1]
+        return Opaque("y_buf", "ybuf")
+    return api.symex.LIB["np.empty"](ex, st, args, kwargs, node, ev)
+
+
+def contract_geometry():
+    c = Contract(
+        target=f"compute:{CLS}.__init__",
+        uses=["A-PYSEM", "A-MATH"],
+        consts={"np.float64": Opaque("float64", "dtype")},
+        handlers={"np.empty": _h_empty_geometry},
+        ensures=[
+            ("frame_length", "self._frame_length == self._max_support + self._frame_shift - 1"),
+            ("dft_covers_frame", "self._dft_size >= self._max_support + self._frame_shift - 1"),
+            ("ring_buffer_has_dft_size", "len(self._x_buf) == self._dft_size"),
+            ("blocks_cover_one_dft_of_output_plus_a_frame", "NB >= 1 and NB * self._frame_shift >= self._dft_size - self._max_support + 2 * self._frame_shift"),
+            ("two_window_halves", "halves == 2"),
+        ],
+    )
+    c.canaries = [("dft_strictly_longer_than_frame", "self._dft_size > self._max_support + self._frame_shift - 1")]
+    return c
+
+
+import ast  # noqa: E402  (sel_geometry)
